@@ -159,6 +159,41 @@ def _ccf_run(ctx, rng, case, refill):
         case.nontrivial = True
         return
 
+    if case.index in (1, 2, 3):
+        # a BIG table (more slots than any block a loader might read at once, bucket sizes that divide no power of two) reloaded in the
+        # middle of its history: every count exact before and after, the history continues on the loaded filter
+        cap, bsz = rng.choice([(3000, 5), (4000, 3), (2500, 7), (10000, 3), (9000, 1), (3000, 6)])
+        f = P.CountingCuckooFilter(capacity=cap, bucket_size=bsz, max_swaps=100, auto_expand=False, finger_size=4)
+        model = Counter()
+        ks = [f"big-{case.index}-{i}" for i in range(min(1500, cap * bsz // 6))]
+        sc0 = bl.Scratch(ctx, case)
+        try:
+            for phase in range(3):
+                for _ in range(len(ks)):
+                    k = rng.choice(ks)
+                    if model[k] and rng.random() < 0.25:
+                        f.remove(k)
+                        model[k] -= 1
+                    else:
+                        f.add(k)
+                        model[k] += 1
+                if phase < 2:
+                    if phase == 0:
+                        f = P.CountingCuckooFilter.frombytes(bytes(f))
+                    else:
+                        p0 = sc0.path("big")
+                        f.export(p0)
+                        f = P.CountingCuckooFilter(filepath=p0)
+                    f.fingerprint_size, f.auto_expand = 4, False
+                bad = [(k, f.check(k), model[k]) for k in ks if f.check(k) != model[k]]
+                ctx.counters["oracle_evaluations"] += len(ks)
+                ctx.check(not bad, f"counts of a {cap}x{bsz} counting cuckoo filter differ from the outstanding additions (phase {phase}: {'after reload' if phase < 2 else 'end'})", first=bad[:5], wrong=len(bad))
+            ctx.count("ccf.big_tables_reloaded_mid_history")
+        finally:
+            sc0.cleanup()
+        case.desc = {"kind": "big table reloaded mid-history", "capacity": cap, "bucket_size": bsz}
+        case.nontrivial = True
+        return
     cfg = ck.gen_cfg(rng, counting=True)
     if refill:
         cfg.capacity = rng.choice([2, 3, 4, 5, 8])
